@@ -13,7 +13,7 @@ from fonts import report_payload
 
 PROP = 'C10'
 VARIANTS = ['asan-direct']
-CONFIGS = [(src, opts) for src in (0, 1) for opts in range(8)]
+CONFIGS = [(src, opts) for src in (0, 1) for opts in range(8)] + [(8, 0), (9, 4), (8, 6)]       # src + 8: deprecated *_with_seg_cache constructors
 RULE = ('Hypothesis: (font, text <= 24, dir 0..7, enc, feature settings) with fonts from the shipped set and C06-regime synthesised fonts; each case shaped under 16 configurations '
         '(options 0..7 x {callbacks, file}); face report compared once per font and configuration. Oracle: exact equality with the default/callback configuration. '
         'Non-trivial: the segment had >= 1 rule fired. Distinct by case JSON.')
